@@ -13,6 +13,8 @@ Definition skeleton_matches : bool :=
   skel_eqb send_skel send_shape && skel_eqb send_many_skel send_many_shape &&
   skel_eqb source_clone_skel source_clone_shape && skel_eqb source_drop_skel source_drop_shape &&
   skel_eqb stop_skel stop_shape && skel_eqb recv_skel recv_shape &&
+  skel_eqb q_send_skel q_send_shape && skel_eqb q_try_send_skel q_try_send_shape &&
+  skel_eqb q_drop_skel q_drop_shape && skel_eqb q_recv_skel q_recv_shape &&
   (ring_min_capacity =? 1) && (initial_senders =? 1) && (ring_index_bits =? 64).
 
 Lemma skeleton_tie : skeleton_matches = true.
@@ -312,17 +314,24 @@ Definition wph_p (p : pth) : wph :=
   match p_pc p with PPush _ PuWrite => WRoom | PPush _ PuStoreTail => WWritten (p_rv p) | _ => WNone end.
 Definition rph_of (m : poppc) : rph := match m with PoRead => RAvail | PoStoreHead => RMoved | _ => RNone end.
 Definition rph_p (p : pth) : rph := match p_pc p with PPop _ m => rph_of m | _ => RNone end.
-Definition rph_c (c : cth) : rph := match c_pc c with CPopRaw m | CRvPop m => rph_of m | _ => RNone end.
-Definition c_inpop (c : cth) : bool := match c_pc c with CPopRaw _ | CRvPop _ => true | _ => false end.
+Definition rph_c (c : cth) : rph := match c_pc c with CPopRaw m | CRvPop m | CQPop m => rph_of m | _ => RNone end.
+Definition c_inpop (c : cth) : bool := match c_pc c with CPopRaw _ | CRvPop _ | CQPop _ => true | _ => false end.
 Definition p_inpop (p : pth) : bool := match p_pc p with PPop _ _ => true | _ => false end.
 Definition rph_cp (c : cth) (p : pth) : rph := if c_inpop c then rph_c c else rph_p p.
 
 Definition c_locked (c : cth) : bool :=
   match c_pc c with
-  | CRvPop _ | CRvUnlockRet | CRvClosed1 | CRvStoreEnded1 | CRvUnlockEos | CRvUnlockWait => true
+  | CRvPop _ | CRvUnlockRet | CRvClosed1 | CRvStoreEnded1 | CRvUnlockEos | CRvUnlockWait
+  | CQPop _ | CQClosed1 | CQUnlockRet | CQUnlockEos | CQUnlockWait => true
   | _ => false end.
 Definition p_locked (p : pth) : bool :=
   match p_pc p with PPop _ _ | PPush (CSend2 _) _ | PNotify (CSend2 _) | PUnlock _ => true | _ => false end.
+(* between push_lock.lock() and the return of try_send / try_send_drop_oldest *)
+Definition p_inlock (p : pth) : bool :=
+  match p_pc p with
+  | PPush CRaw _ => false
+  | PPush _ _ | PNotify _ | PTryLock _ | PPop _ _ | PUnlock _ | PUnlockPush _ => true
+  | _ => false end.
 
 Definition is_opop (o : cop) : bool := match o with OPop => true | _ => false end.
 Definition c_raw (c : cth) : bool :=
@@ -331,21 +340,23 @@ Definition is_osend (o : pop_) : bool := match o with OSend _ | OSendMany _ => t
 Definition p_sendish (p : pth) : bool :=
   existsb is_osend (p_prog p) ||
   match p_pc p with
-  | PClosedChk (KSend _) | PPush (CSend1 _) _ | PPush (CSend2 _) _ | PNotify (CSend1 _) | PNotify (CSend2 _)
-  | PTryLock _ | PPop _ _ | PUnlock _ => true
+  | PClosedChk (KSend _) | PLockPush (KSend _) | PPush (CSend1 _) _ | PPush (CSend2 _) _
+  | PNotify (CSend1 _) | PNotify (CSend2 _) | PTryLock _ | PPop _ _ | PUnlock _ => true
   | _ => false end.
 
 Definition knows (m : poppc) : bool := match m with PoLoadHead => false | _ => true end.
 Definition p_knows_head (p : pth) : bool := match p_pc p with PPop _ m => knows m | _ => false end.
-Definition c_knows_head (c : cth) : bool := match c_pc c with CPopRaw m | CRvPop m => knows m | _ => false end.
+Definition c_knows_head (c : cth) : bool := match c_pc c with CPopRaw m | CRvPop m | CQPop m => knows m | _ => false end.
 Definition p_knows_tail (p : pth) : bool :=
   match p_pc p with PPush _ PuLoadTail => false | PPush _ _ => true | _ => false end.
 Definition c_holding (c : cth) : bool :=
-  match c_pc c with CPopRaw PoStoreHead | CRvPop PoStoreHead | CRvUnlockRet => true | _ => false end.
+  match c_pc c with
+  | CPopRaw PoStoreHead | CRvPop PoStoreHead | CRvUnlockRet | CQPop PoStoreHead | CQUnlockRet => true
+  | _ => false end.
 
 Definition p_pending (p : pth) : list val :=
   match p_pc p with
-  | PClosedChk _ | PPush _ _ | PTryLock _ | PPop _ _ => [p_rv p]
+  | PClosedChk _ | PLockPush _ | PPush _ _ | PTryLock _ | PPop _ _ => [p_rv p]
   | _ => []
   end ++ op_vals (p_prog p).
 
@@ -353,6 +364,7 @@ Record Inv1 (R : bool) (V0 : list val) (h : sh) (c : cth) (p : pth) : Prop := {
   i_ring : RingInv h (wph_p p) (rph_cp c p);
   i_lock : lock h = c_locked c || p_locked p;
   i_excl : c_locked c && p_locked p = false;
+  i_plock : plock h = p_inlock p;
   i_mode : c_raw c = true -> p_sendish p = false;
   i_prt : p_knows_tail p = true -> p_rt p = tail h;
   i_prh : p_knows_head p = true -> p_rh p = head h;
@@ -384,10 +396,11 @@ Proof. unfold p_knows_head, p_inpop. destruct (p_pc p); try discriminate; reflex
 
 Lemma excl_pop R V0 h c p : Inv1 R V0 h c p -> c_inpop c = true -> p_inpop p = false.
 Proof.
-  intros [? ? i_excl0 i_mode0 ? ? ? ? ? ?] Hc. destruct (p_inpop p) eqn:Hp; [exfalso|reflexivity].
+  intros [? ? i_excl0 ? i_mode0 ? ? ? ? ? ?] Hc. destruct (p_inpop p) eqn:Hp; [exfalso|reflexivity].
   pose proof (p_inpop_locked _ Hp) as Hl. pose proof (p_inpop_sendish _ Hp) as Hs.
   unfold c_inpop, c_locked, c_raw in *. destruct (c_pc c); try discriminate.
   - rewrite orb_true_r in i_mode0. specialize (i_mode0 eq_refl). congruence.
+  - rewrite Hl in i_excl0. discriminate.
   - rewrite Hl in i_excl0. discriminate.
 Qed.
 
@@ -397,11 +410,12 @@ Arguments ring_write : simpl never.
 Arguments ring_read : simpl never.
 Arguments notify_one : simpl never.
 Arguments notify_waiters : simpl never.
+Arguments cancel_wait : simpl never.
 Arguments ret_vals : simpl never.
 Ltac ring_same := eapply RingInv_ext; [|eassumption]; repeat split; reflexivity.
 Ltac inv_step H := inversion H; subst; clear H.
 Ltac unf_c := unfold rph_cp, c_inpop, rph_c, c_locked, c_raw, c_knows_head, c_holding,
-                     c_at, c_ret, c_start, c_set_rt, c_set_rh, c_set_rp, c_set_snap, c_set_cl in *.
+                     c_at, c_ret, c_start, c_set_rt, c_set_rh, c_set_rp, c_set_snap, c_set_cl, await_step, waiting_step in *.
 Ltac mk := constructor; unf_c; cbn in *.
 
 Lemma p_notsend_notinpop p : p_sendish p = false -> p_inpop p = false.
@@ -412,7 +426,7 @@ Proof. intros H. destruct (p_inpop p) eqn:E; [|reflexivity]. apply p_inpop_locke
 
 Lemma tail_le_V0 R V0 h c p : Inv1 R V0 h c p -> tail h <= lenZ V0.
 Proof.
-  intros [Hr _ _ _ _ _ _ _ Hs _]. rewrite <- (ri_pushed _ _ _ Hr).
+  intros [Hr _ _ _ _ _ _ _ _ Hs _]. rewrite <- (ri_pushed _ _ _ Hr).
   apply Subseq_length in Hs. rewrite app_length in Hs. unfold lenZ. lia.
 Qed.
 
@@ -449,11 +463,18 @@ Lemma rw_pushed h t v : pushed (ring_write h t v) = pushed h.
 Proof. unfold ring_write. destruct (slots h _); reflexivity. Qed.
 Lemma rr_pushed h w x : pushed (fst (ring_read h w x)) = pushed h.
 Proof. unfold ring_read. destruct (slots h _); reflexivity. Qed.
+Lemma no_plock h : plock (notify_one h) = plock h. Proof. unfold notify_one; destruct (waiting h); reflexivity. Qed.
+Lemma nw_plock h : plock (notify_waiters h) = plock h. Proof. unfold notify_waiters; destruct (waiting h); reflexivity. Qed.
+Lemma rw_plock h t v : plock (ring_write h t v) = plock h.
+Proof. unfold ring_write. destruct (slots h _); reflexivity. Qed.
+Lemma rr_plock h w x : plock (fst (ring_read h w x)) = plock h.
+Proof. unfold ring_read. destruct (slots h _); reflexivity. Qed.
 Lemma op_vals_tl l : Subseq (op_vals (tl l)) (op_vals l).
 Proof. destruct l as [|[] l]; cbn; try apply Subseq_refl; try (apply sub_skip, Subseq_refl). apply Subseq_app_l. Qed.
 Lemma taken_by_eq who a b : taken a = taken b -> taken_by who a = taken_by who b.
 Proof. unfold taken_by. intros ->. reflexivity. Qed.
-#[export] Hint Rewrite no_lock no_head no_tail nw_lock nw_head nw_tail rw_lock rw_head rw_tail rr_lock rr_head rr_tail no_pushed nw_pushed rw_pushed rr_pushed no_taken nw_taken rw_taken : shf.
+#[export] Hint Rewrite no_lock no_head no_tail nw_lock nw_head nw_tail rw_lock rw_head rw_tail rr_lock rr_head rr_tail no_pushed nw_pushed rw_pushed rr_pushed no_taken nw_taken rw_taken
+  no_plock nw_plock rw_plock rr_plock : shf.
 
 Lemma ring_bounds h w r : RingInv h w r -> 0 <= head h <= tail h.
 Proof. intros []. destruct r; cbn [rd] in *; lia. Qed.
@@ -462,7 +483,7 @@ Lemma p_notknows p : p_inpop p = false -> p_knows_head p = true -> False.
 Proof. intros H K. apply p_knows_inpop in K. congruence. Qed.
 
 Ltac tk_simpl :=
-  unfold taken_by in *; cbn [taken set_lock set_head set_ended set_notify set_closed set_stop set_senders set_tail set_slots] in *;
+  unfold taken_by in *; cbn [taken set_lock set_plock set_head set_ended set_notify set_nw set_closed set_stop set_senders set_tail set_slots cancel_wait] in *;
   rewrite ?ret_vals_app in *; cbn [ret_vals flat_map] in *; rewrite ?app_nil_r in *.
 Ltac raw_fld :=
   let HR := fresh "HR" in intros HR;
@@ -510,12 +531,11 @@ Proof.
   intros I Hidx Hstep.
   pose proof (excl_pop _ _ _ _ _ I) as Hex.
   pose proof (tail_le_V0 _ _ _ _ _ I) as HtV.
-  destruct I as [Iring Ilock Iexcl Imode Iprt Iprh Icrh Irecv Isent Iraw].
-  destruct c as [prog pc rt rh rp snap cl rets].
-  unfold cstep in Hstep; cbn [c_pc c_prog c_rh c_rp c_snap c_cl] in Hstep.
-  unf_c; cbn [c_pc c_prog c_rh c_rp c_rets c_snap c_cl] in *.
-  destruct pc as [|m| | | | |m| | | | | | | | | |].
-  all: try (destruct m).
+  destruct I as [Iring Ilock Iexcl Iplock Imode Iprt Iprh Icrh Irecv Isent Iraw].
+  destruct c as [prog pc rt rh rp snap cl can rets].
+  unfold cstep in Hstep; cbn [c_pc c_prog c_rh c_rp c_snap c_cl c_can] in Hstep.
+  unf_c; cbn [c_pc c_prog c_rh c_rp c_rets c_snap c_cl c_can] in *.
+  destruct pc; try match goal with m : poppc |- _ => destruct m end.
   all: cbn [rph_of knows] in *.
   all: repeat match type of Hstep with
        | context [if ?b then _ else _] => destruct b eqn:?
@@ -538,7 +558,7 @@ Qed.
 
 Lemma sstep_inv R V0 h x c p h' x' : Inv1 R V0 h c p -> sstep h x = Some (h', x') -> Inv1 R V0 h' c p.
 Proof.
-  intros [Iring Ilock Iexcl Imode Iprt Iprh Icrh Irecv Isent Iraw] Hstep.
+  intros [Iring Ilock Iexcl Iplock Imode Iprt Iprh Icrh Irecv Isent Iraw] Hstep.
   unfold sstep in Hstep. destruct (s_pc x); [destruct (s_todo x); [discriminate|]| |]; inv_step Hstep.
   - constructor; assumption.
   - constructor; fld.
@@ -547,12 +567,12 @@ Qed.
 
 
 
-Ltac unf_p := unfold rph_cp, wph_p, rph_p, p_inpop, p_locked, p_sendish, p_knows_head, p_knows_tail,
+Ltac unf_p := unfold rph_cp, wph_p, rph_p, p_inpop, p_locked, p_inlock, p_sendish, p_knows_head, p_knows_tail, p_log,
                      p_at, p_ret, p_start, p_set_rt, p_set_rh, p_set_handles, p_ret_closed, push_full, push_done, ctx_of in *.
 Ltac mkp := constructor; unf_p; cbn in *.
 
 Lemma c_inpop_cases c : c_inpop c = true -> c_locked c = true \/ c_raw c = true.
-Proof. unfold c_inpop, c_locked, c_raw. destruct (c_pc c); try discriminate; intros _; [right; apply orb_true_r|left; reflexivity]. Qed.
+Proof. unfold c_inpop, c_locked, c_raw. destruct (c_pc c); try discriminate; intros _; [right; apply orb_true_r|left; reflexivity|left; reflexivity]. Qed.
 
 Lemma pstep_inv R V0 h c p h' p' :
   Inv1 R V0 h c p -> idxs_ok h (lenZ V0) -> pstep h p = Some (h', p') -> Inv1 R V0 h' c p'.
@@ -561,11 +581,11 @@ Proof.
   pose proof (excl_pop _ _ _ _ _ I) as Hex.
   pose proof (c_inpop_cases c) as Hcc.
   pose proof (tail_le_V0 _ _ _ _ _ I) as HtV.
-  destruct I as [Iring Ilock Iexcl Imode Iprt Iprh Icrh Irecv Isent Iraw].
+  destruct I as [Iring Ilock Iexcl Iplock Imode Iprt Iprh Icrh Irecv Isent Iraw].
   destruct p as [prog pc prt prh rv hd rets].
   unfold pstep in Hstep; cbn [p_pc p_prog p_rt p_rh p_rv p_handles p_rets] in Hstep.
   unf_p; cbn [p_pc p_prog p_rt p_rh p_rv p_handles p_rets] in *.
-  destruct pc as [|k|cx m|cx|mm|mm m|mm| | | |].
+  destruct pc as [|k|k|cx m|cx|mm|mm m|mm|r| | | |].
   all: try (destruct m).
   all: try (destruct cx).
   all: try (destruct k).
@@ -628,8 +648,8 @@ Definition static_eq (a b : sh) : Prop := cap a = cap b /\ wmod a = wmod b.
 
 Lemma cstep_static h c h' c' : cstep h c = Some (h', c') -> static_eq h' h.
 Proof.
-  unfold cstep, static_eq. intros H.
-  destruct (c_pc c) as [|m| | | | |m| | | | | | | | | |]; try destruct m;
+  unfold cstep, static_eq, await_step, waiting_step. intros H.
+  destruct (c_pc c); try match goal with m : poppc |- _ => destruct m end;
   repeat match type of H with
        | context [if ?b then _ else _] => destruct b eqn:?
        | context [match ?l with [] => _ | _ => _ end] => destruct l as [|[] ?]
@@ -642,7 +662,7 @@ Qed.
 Lemma pstep_static h p h' p' : pstep h p = Some (h', p') -> static_eq h' h.
 Proof.
   unfold pstep, static_eq, push_full, push_done. intros H.
-  destruct (p_pc p) as [|k|cx m|cx|mm|mm m|mm| | | |]; try destruct m; try destruct cx;
+  destruct (p_pc p) as [|k|k|cx m|cx|mm|mm m|mm|r| | | |]; try destruct m; try destruct cx;
   repeat match type of H with
        | context [if ?b then _ else _] => destruct b eqn:?
        | context [match ?l with [] => _ | _ => _ end] => destruct l as [|[] ?]
@@ -699,6 +719,7 @@ Proof.
     + apply ring_init. assumption.
     + reflexivity.
     + reflexivity.
+    + reflexivity.
     + unfold c_raw, p_sendish. cbn. rewrite !orb_false_r. assumption.
     + discriminate.
     + discriminate.
@@ -734,10 +755,10 @@ Section OneProducer.
   Let s := run (init capacity w cprog nstop [pprog]) sched.
 
   Lemma spsc_no_ub : ub (shd s) = None.
-  Proof. destruct (reach_inv _ _ _ nstop _ sched Hcfg) as (p & _ & [Hr _ _ _ _ _ _ _ _ _] & _). exact (ri_ub _ _ _ Hr). Qed.
+  Proof. destruct (reach_inv _ _ _ nstop _ sched Hcfg) as (p & _ & [Hr _ _ _ _ _ _ _ _ _ _] & _). exact (ri_ub _ _ _ Hr). Qed.
 
   Lemma spsc_ring_inv : exists p, prods s = [p] /\ RingInv (shd s) (wph_p p) (rph_cp (cons s) p).
-  Proof. destruct (reach_inv _ _ _ nstop _ sched Hcfg) as (p & Hp & [Hr _ _ _ _ _ _ _ _ _] & _). eauto. Qed.
+  Proof. destruct (reach_inv _ _ _ nstop _ sched Hcfg) as (p & Hp & [Hr _ _ _ _ _ _ _ _ _ _] & _). eauto. Qed.
 
   (* everything that ever left the ring is a prefix of what entered it, in order, each once *)
   Lemma spsc_taken_prefix : exists n, map snd (taken (shd s)) = firstn n (pushed (shd s)).
@@ -745,13 +766,13 @@ Section OneProducer.
 
   Lemma spsc_pushed_sent : Subseq (pushed (shd s)) (op_vals pprog).
   Proof.
-    destruct (reach_inv _ _ _ nstop _ sched Hcfg) as (p & _ & [_ _ _ _ _ _ _ _ Hs _] & _).
+    destruct (reach_inv _ _ _ nstop _ sched Hcfg) as (p & _ & [_ _ _ _ _ _ _ _ _ Hs _] & _).
     eapply Subseq_trans; [apply Subseq_app_r|exact Hs].
   Qed.
 
   Lemma spsc_received_taken : Subseq (received s) (map snd (taken (shd s))).
   Proof.
-    destruct (reach_inv _ _ _ nstop _ sched Hcfg) as (p & _ & [_ _ _ _ _ _ _ Hrc _ _] & _).
+    destruct (reach_inv _ _ _ nstop _ sched Hcfg) as (p & _ & [_ _ _ _ _ _ _ _ Hrc _ _] & _).
     unfold received, s. apply Subseq_trans with (taken_by true (shd (run (init capacity w cprog nstop [pprog]) sched))).
     - rewrite Hrc. apply Subseq_app_r.
     - unfold taken_by. apply Subseq_map, Subseq_filter.
@@ -775,7 +796,7 @@ Section OneProducer.
     existsb is_osend pprog = false -> received s = firstn (length (received s)) (pushed (shd s)).
   Proof.
     intros Hraw. unfold received, s.
-    destruct (reach_inv _ _ _ nstop _ sched Hcfg) as (p & _ & [Hr _ _ _ _ _ _ Hrc _ Hrw] & _).
+    destruct (reach_inv _ _ _ nstop _ sched Hcfg) as (p & _ & [Hr _ _ _ _ _ _ _ Hrc _ Hrw] & _).
     rewrite Hraw in Hrw. destruct (Hrw eq_refl) as [_ Hall].
     assert (Htb : taken_by true (shd (run (init capacity w cprog nstop [pprog]) sched)) =
                   map snd (taken (shd (run (init capacity w cprog nstop [pprog]) sched)))).
@@ -791,7 +812,7 @@ Section OneProducer.
     tail (shd s) - head (shd s) = cap (shd s).
   Proof.
     intros Hp Hpc Hf.
-    destruct (reach_inv _ _ _ nstop _ sched Hcfg) as (p' & Hp' & [Hr _ _ _ Hrt _ _ _ _ _] & _).
+    destruct (reach_inv _ _ _ nstop _ sched Hcfg) as (p' & Hp' & [Hr _ _ _ _ Hrt _ _ _ _ _] & _).
     fold s in Hp', Hr, Hrt. rewrite Hp in Hp'. inv_step Hp'.
     unfold wph_p, p_knows_tail in *. rewrite Hpc in *. rewrite (Hrt eq_refl) in Hf.
     eapply ring_full_is_full; eauto.
@@ -804,7 +825,7 @@ Section OneProducer.
     head (shd s) = tail (shd s).
   Proof.
     intros Hpc Hm He.
-    destruct (reach_inv _ _ _ nstop _ sched Hcfg) as (p' & Hp' & [Hr _ _ _ _ _ Hrh _ _ _] & _).
+    destruct (reach_inv _ _ _ nstop _ sched Hcfg) as (p' & Hp' & [Hr _ _ _ _ _ _ Hrh _ _ _] & _).
     fold s in Hp', Hr, Hrh. unfold rph_cp, c_inpop, rph_c, c_knows_head in *.
     destruct Hm; subst m; rewrite H in *; cbn in *; rewrite (Hrh eq_refl) in He;
       eapply ring_empty_is_empty; eauto.
@@ -884,7 +905,7 @@ Section OneProducerQuiescent.
   Lemma quiescent_ring : quiescent s = true -> RingInv (shd s) WNone RNone /\ idxs_ok (shd s) (tail (shd s)).
   Proof.
     intros Hq. destruct (reach_inv _ _ _ nstop _ sched Hcfg) as (p & Hp & I & Hidx). fold s in Hp, I, Hidx.
-    pose proof (tail_le_V0 _ _ _ _ _ I) as Ht. destruct I as [Hr _ _ _ _ _ _ _ _ _].
+    pose proof (tail_le_V0 _ _ _ _ _ I) as Ht. destruct I as [Hr _ _ _ _ _ _ _ _ _ _].
     unfold quiescent in Hq. rewrite Hp in Hq. cbn in Hq. rewrite andb_true_r in Hq.
     apply andb_true_iff in Hq as [Hq Hpi]. apply andb_true_iff in Hq as [Hci _].
     unfold c_idle in Hci. unfold p_idle in Hpi. unfold wph_p, rph_cp, c_inpop, rph_p in Hr.
@@ -931,44 +952,7 @@ Section OneProducerQuiescent.
   Qed.
 End OneProducerQuiescent.
 
-(* ================================================================== more than one producer thread (F22) *)
-(* two threads, each with its own clone of the source, one send() each, capacity 2:
-   both read tail = 0, both pass the full test, both write slot 0 *)
-Definition mpsc_cfg : st := init 2 (2 ^ 64) [ORecv; ORecv; ORecv] 0 [[OSend 10]; [OSend 20]].
-Definition mpsc_sched_overwrite : list nat := [2;2;2;2; 3;3;3;3; 2;3]%nat.
-Lemma mpsc_overwrite_witness : ub (shd (run mpsc_cfg mpsc_sched_overwrite)) = Some UbOverwrite.
-Proof. vm_compute. reflexivity. Qed.
-
-(* the same race continued: both sends answer Ok, the consumer gets ONE sample, the other is lost *)
-Definition mpsc_sched_loss : list nat :=
-  [2;2;2;2; 3;3;3;3; 2;3;2;3;2;3; 0;0;0;0;0;0;0;0;0; 0;0;0;0;0;0;0;0;0]%nat.
-Lemma mpsc_loss_witness :
-  let s := run mpsc_cfg mpsc_sched_loss in
-  map p_rets (prods s) = [[RSendOk]; [RSendOk]] /\ received s = [20] /\ head (shd s) = tail (shd s).
-Proof. vm_compute. repeat split; reflexivity. Qed.
-
-(* a stale tail store moves `tail` backwards; the consumer then reads a slot that holds no value
-   (in Rust: assume_init_read of a moved-out MediaSample = second owner of the same Bytes buffer) *)
-Definition mpsc_cfg2 : st :=
-  init 2 (2 ^ 64) [OPop; OPop; OPop; OPop] 0 [[OPush 1; OPush 2]; [OPush 9]].
-Definition mpsc_sched_uninit : list nat :=
-  [3;3;3;                       (* B: fetch, load tail = 0, load head = 0 *)
-   2;2;2;2;2; 2;2;2;2;2;        (* A: two complete pushes, tail = 2 *)
-   0;0;0;0;0; 0;0;0;0;0;        (* consumer pops 1 and 2, head = 2 *)
-   3;3;                         (* B: writes slot 0, stores tail = 1 *)
-   0;0;0;0;0;                   (* consumer: head 2 <> tail 1 -> pops slot 0 (value 9), head = 3 *)
-   0;0;0;0]%nat.                (* consumer: head 3 <> tail 1 -> reads slot 1: nothing there *)
-Lemma mpsc_uninit_witness :
-  let s := run mpsc_cfg2 mpsc_sched_uninit in
-  ub (shd s) = Some UbReadUninit /\ received s = [1; 2; 9] /\ tail (shd s) < head (shd s).
-Proof. vm_compute. repeat split; reflexivity. Qed.
-
-Lemma mpsc_refuted :
-  exists (progs : list (list pop_)) sched,
-    length progs = 2%nat /\
-    ub (shd (run (init 2 (2 ^ 64) [ORecv; ORecv; ORecv] 0 progs) sched)) <> None.
-Proof. exists [[OSend 10]; [OSend 20]], mpsc_sched_overwrite. split; [reflexivity|]. change (ub (shd (run mpsc_cfg mpsc_sched_overwrite)) <> None). rewrite mpsc_overwrite_witness. discriminate. Qed.
-
+(* ================================================================== sanity example *)
 (* the same configuration with the two sends issued by ONE thread is covered by the theorems above *)
 Example one_thread_same_ops_ok sched :
   ub (shd (run (init 2 (2 ^ 64) [ORecv; ORecv; ORecv] 0 [[OSend 10; OSend 20]]) sched)) = None.
@@ -990,377 +974,3 @@ Lemma wrap_nondivisible_witness :
   ub (shd (run_ops wrap_cfg [2;2;2;0;0;2;2]%nat)) = Some UbOverwrite.
 Proof. vm_compute. reflexivity. Qed.
 
-(* ================================================================== close, end-of-stream, wake-ups (one producer) *)
-Definition p_busy (p : pth) : bool :=
-  match p_pc p with PIdle | PDropStoreClosed | PDropNotify => false | _ => true end.
-Definition p_dropping (p : pth) : bool :=
-  match p_pc p with PDropStoreClosed | PDropNotify => true | _ => false end.
-Definition p_quiet (p : pth) : bool :=
-  match p_pc p with PIdle | PDropNotify => true | _ => false end.
-Definition c_after_closed (c : cth) : bool :=
-  match c_pc c with CRvPop _ | CRvUnlockRet | CRvUnlockWait | CRvAwait | CRvStoreEnded1 | CRvUnlockEos => true | _ => false end.
-Definition c_after_ended (c : cth) : bool :=
-  match c_pc c with CRvLock | CRvClosed1 => true | _ => c_after_closed c end.
-Definition c_sees_drained (c : cth) : bool :=
-  match c_pc c with CRvStoreEnded1 | CRvStoreEnded2 => true | _ => false end.
-Definition c_in_empty (c : cth) : bool :=
-  match c_pc c with CRvEmptyH | CRvEmptyT | CRvStoreEnded2 => true | _ => false end.
-Definition c_no_cl (c : cth) : bool := match c_pc c with CRvUnlockWait | CRvAwait => true | _ => false end.
-Definition c_is_waiting (c : cth) : bool := match c_pc c with CRvWaiting => true | _ => false end.
-Definition s_notifying (x : sth) : bool := match s_pc x with SNotify => true | _ => false end.
-Definition p_notifying (p : pth) : bool := match p_pc p with PDropNotify => true | _ => false end.
-
-Record Inv2 (h : sh) (c : cth) (x : sth) (p : pth) : Prop := {
-  j_senders : senders h = p_handles p /\ 0 <= p_handles p;
-  j_busy : p_busy p = true -> 1 <= p_handles p;
-  j_dropz : p_dropping p = true -> p_handles p = 0;
-  j_closed : closed h = true -> p_handles p = 0 /\ p_quiet p = true;
-  j_storing : p_pc p = PDropStoreClosed -> closed h = false;
-  j_cl : c_after_closed c = true -> c_cl c = true -> closed h = true;
-  j_clwait : c_no_cl c = true -> c_cl c = false;
-  j_stop_end : stopped h = true -> ended h = true;
-  j_ended : ended h = true -> stopped h = true \/ (closed h = true /\ head h = tail h);
-  j_drained : c_sees_drained c = true -> closed h = true /\ head h = tail h;
-  j_empty : c_in_empty c = true -> closed h = true;
-  j_emptyT : c_pc c = CRvEmptyT -> c_rh c = head h;
-  j_eos : In REos (c_rets c) \/ c_pc c = CRvUnlockEos -> ended h = true;
-  w_wait : c_is_waiting c = true -> waiting h = negb (woken h);
-  w_nowait : c_is_waiting c = false -> waiting h = false /\ woken h = false;
-  w_snap : c_snap c <= nwc h;
-  w_stop : c_after_ended c = true -> nwc h = c_snap c -> stopped h = true -> s_notifying x = true;
-  w_stop' : c_is_waiting c = true -> woken h = false -> stopped h = true -> s_notifying x = true;
-  w_close : c_after_closed c = true -> c_cl c = false -> nwc h = c_snap c -> closed h = true -> p_notifying p = true;
-  w_close' : c_is_waiting c = true -> woken h = false -> closed h = true -> p_notifying p = true }.
-
-(* ---- more frame lemmas *)
-Lemma rw_closed h t v : closed (ring_write h t v) = closed h. Proof. unfold ring_write. destruct (slots h _); reflexivity. Qed.
-Lemma rr_closed h w x : closed (fst (ring_read h w x)) = closed h. Proof. unfold ring_read. destruct (slots h _); reflexivity. Qed.
-Lemma rw_ended h t v : ended (ring_write h t v) = ended h. Proof. unfold ring_write. destruct (slots h _); reflexivity. Qed.
-Lemma rr_ended h w x : ended (fst (ring_read h w x)) = ended h. Proof. unfold ring_read. destruct (slots h _); reflexivity. Qed.
-Lemma rw_stopped h t v : stopped (ring_write h t v) = stopped h. Proof. unfold ring_write. destruct (slots h _); reflexivity. Qed.
-Lemma rr_stopped h w x : stopped (fst (ring_read h w x)) = stopped h. Proof. unfold ring_read. destruct (slots h _); reflexivity. Qed.
-Lemma rw_senders h t v : senders (ring_write h t v) = senders h. Proof. unfold ring_write. destruct (slots h _); reflexivity. Qed.
-Lemma rr_senders h w x : senders (fst (ring_read h w x)) = senders h. Proof. unfold ring_read. destruct (slots h _); reflexivity. Qed.
-Lemma rw_waiting h t v : waiting (ring_write h t v) = waiting h. Proof. unfold ring_write. destruct (slots h _); reflexivity. Qed.
-Lemma rr_waiting h w x : waiting (fst (ring_read h w x)) = waiting h. Proof. unfold ring_read. destruct (slots h _); reflexivity. Qed.
-Lemma rw_woken h t v : woken (ring_write h t v) = woken h. Proof. unfold ring_write. destruct (slots h _); reflexivity. Qed.
-Lemma rr_woken h w x : woken (fst (ring_read h w x)) = woken h. Proof. unfold ring_read. destruct (slots h _); reflexivity. Qed.
-Lemma rw_nwc h t v : nwc (ring_write h t v) = nwc h. Proof. unfold ring_write. destruct (slots h _); reflexivity. Qed.
-Lemma rr_nwc h w x : nwc (fst (ring_read h w x)) = nwc h. Proof. unfold ring_read. destruct (slots h _); reflexivity. Qed.
-Lemma rw_permit h t v : permit (ring_write h t v) = permit h. Proof. unfold ring_write. destruct (slots h _); reflexivity. Qed.
-Lemma rr_permit h w x : permit (fst (ring_read h w x)) = permit h. Proof. unfold ring_read. destruct (slots h _); reflexivity. Qed.
-Lemma no_closed h : closed (notify_one h) = closed h. Proof. unfold notify_one. destruct (waiting h); reflexivity. Qed.
-Lemma no_ended h : ended (notify_one h) = ended h. Proof. unfold notify_one. destruct (waiting h); reflexivity. Qed.
-Lemma no_stopped h : stopped (notify_one h) = stopped h. Proof. unfold notify_one. destruct (waiting h); reflexivity. Qed.
-Lemma no_senders h : senders (notify_one h) = senders h. Proof. unfold notify_one. destruct (waiting h); reflexivity. Qed.
-Lemma no_nwc h : nwc (notify_one h) = nwc h. Proof. unfold notify_one. destruct (waiting h); reflexivity. Qed.
-Lemma nw_closed h : closed (notify_waiters h) = closed h. Proof. unfold notify_waiters. destruct (waiting h); reflexivity. Qed.
-Lemma nw_ended h : ended (notify_waiters h) = ended h. Proof. unfold notify_waiters. destruct (waiting h); reflexivity. Qed.
-Lemma nw_stopped h : stopped (notify_waiters h) = stopped h. Proof. unfold notify_waiters. destruct (waiting h); reflexivity. Qed.
-Lemma nw_senders h : senders (notify_waiters h) = senders h. Proof. unfold notify_waiters. destruct (waiting h); reflexivity. Qed.
-Lemma nw_permit h : permit (notify_waiters h) = permit h. Proof. unfold notify_waiters. destruct (waiting h); reflexivity. Qed.
-Lemma nw_nwc h : nwc (notify_waiters h) = nwc h + 1. Proof. unfold notify_waiters. destruct (waiting h); reflexivity. Qed.
-#[export] Hint Rewrite rw_closed rr_closed rw_ended rr_ended rw_stopped rr_stopped rw_senders rr_senders rw_waiting rr_waiting rw_woken rr_woken rw_nwc rr_nwc rw_permit rr_permit no_closed no_ended no_stopped no_senders no_nwc nw_closed nw_ended nw_stopped nw_senders nw_permit nw_nwc : shf.
-
-Arguments is_mt : simpl never.
-Arguments is_full : simpl never.
-
-Ltac unf_2 := unfold p_busy, p_dropping, p_quiet, c_after_ended, c_after_closed, c_sees_drained, c_in_empty,
-                     c_is_waiting, c_no_cl, s_notifying, p_notifying in *.
-Ltac fld2 :=
-  autorewrite with shf;
-  try assumption; try reflexivity; try discriminate;
-  try solve [intros; discriminate];
-  try solve [intuition (try discriminate; try congruence; try lia)];
-  try solve [intros; repeat match goal with H : context [negb ?b] |- _ => destruct b eqn:?; cbn [negb] in * end;
-             intuition (try discriminate; try congruence; try lia)];
-  try solve [let E := fresh in intros E; rewrite E in *; cbn in *; intuition (try discriminate; try congruence; try lia)];
-  try solve [intros; match goal with |- ?b = false => destruct b eqn:?; [exfalso|reflexivity] end;
-             intuition (try discriminate; try congruence; try lia)].
-
-Lemma no_waiting_true h : waiting h = true -> notify_one h = set_notify h (permit h) false true.
-Proof. unfold notify_one. intros ->. reflexivity. Qed.
-Lemma no_waiting_false h : waiting h = false -> notify_one h = set_notify h true false (woken h).
-Proof. unfold notify_one. intros ->. reflexivity. Qed.
-Lemma nw_waiting_true h : waiting h = true -> notify_waiters h = set_nw h false true.
-Proof. unfold notify_waiters. intros ->. reflexivity. Qed.
-Lemma nw_waiting_false h : waiting h = false -> notify_waiters h = set_nw h false (woken h).
-Proof. unfold notify_waiters. intros ->. reflexivity. Qed.
-
-Lemma sstep_inv2 h c x p h' x' : Inv2 h c x p -> sstep h x = Some (h', x') -> Inv2 h' c x' p.
-Proof.
-  intros J Hstep.
-  destruct J as [Jsend Jbusy Jdropz Jclosed Jstoring Jcl Jclw Jse Jended Jdr Jemp JempT Jeos Wwait Wnowait Wsnap Wstop Wstop' Wclose Wclose'].
-  destruct x as [todo spc]. unfold sstep in Hstep. cbn [s_pc s_todo] in Hstep. unf_2. cbn [s_pc] in *.
-  destruct spc; [destruct todo; [discriminate|]| |]; inv_step Hstep.
-  - constructor; unf_2; cbn in *; fld2.
-  - constructor; unf_2; cbn in *; fld2.
-  - destruct (waiting h) eqn:Hw.
-    + rewrite (nw_waiting_true _ Hw). constructor; unf_2; cbn in *; fld2.
-    + rewrite (nw_waiting_false _ Hw). constructor; unf_2; cbn in *; fld2.
-Qed.
-
-Lemma in_app_one {A} (l : list A) x y : In y (l ++ [x]) <-> In y l \/ y = x.
-Proof. rewrite in_app_iff. cbn. intuition. Qed.
-
-Lemma cstep_inv2 R V0 h c x p h' c' :
-  Inv1 R V0 h c p -> idxs_ok h (lenZ V0) -> Inv2 h c x p -> cstep h c = Some (h', c') -> Inv2 h' c' x p.
-Proof.
-  intros I Hidx J Hstep.
-  pose proof (excl_pop _ _ _ _ _ I) as Hex.
-  pose proof (tail_le_V0 _ _ _ _ _ I) as HtV.
-  destruct I as [Iring Ilock Iexcl Imode Iprt Iprh Icrh Irecv Isent Iraw].
-  destruct J as [Jsend Jbusy Jdropz Jclosed Jstoring Jcl Jclw Jse Jended Jdr Jemp JempT Jeos Wwait Wnowait Wsnap Wstop Wstop' Wclose Wclose'].
-  destruct c as [prog pc rt rh rp snap cl rets].
-  unfold cstep in Hstep; cbn [c_pc c_prog c_rh c_rp c_snap c_cl] in Hstep.
-  unf_c; unf_2; cbn [c_pc c_prog c_rh c_rp c_rets c_snap c_cl] in *.
-  destruct pc as [|m| | | | |m| | | | | | | | | |].
-  all: try (destruct m).
-  all: cbn [rph_of knows] in *.
-  all: repeat match type of Hstep with
-       | context [if ?b then _ else _] => destruct b eqn:?
-       | context [match ?l with [] => _ | _ => _ end] => destruct l as [|[] ?]
-       end.
-  all: try discriminate Hstep.
-  all: try solve [inv_step Hstep; constructor; unf_c; unf_2; cbn in *; fld2].
-  all: try (specialize (Icrh eq_refl); subst rh).
-  all: try match type of Hstep with context [ring_read] =>
-         destruct (ring_read_ok _ _ true Iring) as (v & Hv & Hrd & Hring');
-         [apply Hidx; pose proof (ring_bounds _ _ _ Iring); lia|]; rewrite Hrd in Hstep end.
-  all: try match goal with H : is_mt ?s (head ?s) (tail ?s) = true, RI : RingInv ?s _ RNone |- _ =>
-         pose proof (ring_empty_is_empty _ _ RI H) end.
-  all: try match goal with RI : RingInv _ _ RMoved |- _ => pose proof (ri_ht _ _ _ RI); cbn [rd] in * end.
-  all: try match goal with H : (_ =? _) = true |- _ => apply Z.eqb_eq in H end.
-  all: inv_step Hstep; constructor; unf_c; unf_2; cbn in *; rewrite ?in_app_one in *; fld2.
-  (* CRvEmptyT, empty: closed, so the producer is quiet and the ring really is empty *)
-  intros _. specialize (Jemp eq_refl). specialize (JempT eq_refl). subst rh.
-  split; [assumption|]. destruct (Jclosed Jemp) as [_ Hq].
-  assert (Hnp : p_inpop p = false) by (unfold p_inpop; destruct (p_pc p); try discriminate; reflexivity).
-  rewrite rph_p_notin in Iring by assumption.
-  eapply ring_empty_is_empty; eauto.
-Qed.
-
-Lemma pstep_inv2 R V0 h c x p h' p' :
-  Inv1 R V0 h c p -> idxs_ok h (lenZ V0) -> Inv2 h c x p -> pstep h p = Some (h', p') -> Inv2 h' c x p'.
-Proof.
-  intros I Hidx J Hstep.
-  pose proof (excl_pop _ _ _ _ _ I) as Hex.
-  destruct I as [Iring Ilock Iexcl Imode Iprt Iprh Icrh Irecv Isent Iraw].
-  destruct J as [Jsend Jbusy Jdropz Jclosed Jstoring Jcl Jclw Jse Jended Jdr Jemp JempT Jeos Wwait Wnowait Wsnap Wstop Wstop' Wclose Wclose'].
-  destruct p as [prog pc prt prh rv hd rets].
-  unfold pstep in Hstep; cbn [p_pc p_prog p_rt p_rh p_rv p_handles p_rets] in Hstep.
-  unf_p; unf_2; cbn [p_pc p_prog p_rt p_rh p_rv p_handles p_rets] in *.
-  destruct pc as [|k|cx m|cx|mm|mm m|mm| | | |].
-  all: try (destruct m).
-  all: try (destruct cx).
-  all: try (destruct k).
-  all: cbn [rph_of knows] in *.
-  all: repeat match type of Hstep with
-       | context [if ?b then _ else _] => destruct b eqn:?
-       | context [match ?l with [] => _ | _ => _ end] => destruct l as [|[] ?]
-       end.
-  all: try discriminate Hstep.
-  all: try match goal with H : (_ <=? _) = false |- _ => apply Z.leb_gt in H end.
-  all: try match goal with H : (_ =? _) = true |- _ => apply Z.eqb_eq in H end.
-  all: try match goal with H : (_ =? _) = false |- _ => apply Z.eqb_neq in H end.
-  all: try match type of Hstep with context [notify_one ?s] =>
-         let Hw := fresh "Hw" in destruct (waiting s) eqn:Hw;
-         [rewrite (no_waiting_true _ Hw) in Hstep | rewrite (no_waiting_false _ Hw) in Hstep] end.
-  all: try match type of Hstep with context [notify_waiters ?s] =>
-         let Hw := fresh "Hw" in destruct (waiting s) eqn:Hw;
-         [rewrite (nw_waiting_true _ Hw) in Hstep | rewrite (nw_waiting_false _ Hw) in Hstep] end.
-  all: try solve [inv_step Hstep; constructor; unf_p; unf_2; cbn in *; fld2].
-  all: inv_step Hstep; constructor; unf_p; unf_2; cbn in *; fld2.
-Qed.
-
-Definition InvAll (R : bool) (V0 : list val) (s : st) : Prop :=
-  exists p, prods s = [p] /\ Inv1 R V0 (shd s) (cons s) p /\ idxs_ok (shd s) (lenZ V0) /\
-            Inv2 (shd s) (cons s) (stp s) p.
-
-Lemma step_inv_all R V0 s t s' : InvAll R V0 s -> step s t = Some s' -> InvAll R V0 s'.
-Proof.
-  intros (p & Hp & I & Hidx & J) H.
-  assert (Hi : Inv R V0 s) by (exists p; auto).
-  pose proof (step_inv _ _ _ _ _ Hi H) as (p' & Hp' & I' & Hidx').
-  exists p'. split; [assumption|]. split; [assumption|]. split; [assumption|].
-  unfold step in H. destruct t as [|[|k]].
-  - destruct (cstep (shd s) (cons s)) as [[h c]|] eqn:E; [|discriminate]. inv_step H. cbn in *.
-    rewrite Hp in Hp'. inv_step Hp'. exact (cstep_inv2 _ _ _ _ _ _ _ _ I Hidx J E).
-  - destruct (sstep (shd s) (stp s)) as [[h x]|] eqn:E; [|discriminate]. inv_step H. cbn in *.
-    rewrite Hp in Hp'. inv_step Hp'. exact (sstep_inv2 _ _ _ _ _ _ J E).
-  - rewrite Hp in H. destruct k as [|k]; cbn in H; [|destruct k; discriminate].
-    destruct (pstep (shd s) p) as [[h p'']|] eqn:E; [|discriminate]. inv_step H. cbn in *.
-    inv_step Hp'. exact (pstep_inv2 _ _ _ _ _ _ _ _ I Hidx J E).
-Qed.
-
-Lemma run_inv_all R V0 sched : forall s, InvAll R V0 s -> InvAll R V0 (run s sched).
-Proof.
-  induction sched as [|t r IH]; intros s I; cbn; [assumption|]. apply IH.
-  unfold step'. destruct (step s t) eqn:E; [eapply step_inv_all; eauto|assumption].
-Qed.
-
-Lemma init_inv_all capacity w cprog n pprog :
-  cfg_ok capacity w cprog pprog ->
-  InvAll (negb (existsb is_osend pprog)) (op_vals pprog) (init capacity w cprog n [pprog]).
-Proof.
-  intros H. destruct (init_inv capacity w cprog n pprog H) as (p & Hp & I & Hidx).
-  exists p. split; [assumption|]. split; [assumption|]. split; [assumption|].
-  cbn in Hp. inv_step Hp. cbn.
-  constructor; unf_2; cbn; try solve [intuition (try discriminate; try lia)].
-Qed.
-
-Lemma reach_inv_all capacity w cprog n pprog sched :
-  cfg_ok capacity w cprog pprog ->
-  InvAll (negb (existsb is_osend pprog)) (op_vals pprog) (run (init capacity w cprog n [pprog]) sched).
-Proof. intros H. apply run_inv_all, init_inv_all, H. Qed.
-
-(* ---- theorems about close / end-of-stream / wake-ups *)
-Section OneProducerClose.
-  Variables (capacity w : Z) (cprog : list cop) (nstop : nat) (pprog : list pop_) (sched : list nat).
-  Hypothesis Hcfg : cfg_ok capacity w cprog pprog.
-  Let s := run (init capacity w cprog nstop [pprog]) sched.
-
-  (* recv() answers end-of-stream only after stop(), or after the last source handle is gone AND
-     everything that entered the ring has left it (delivered, or discarded as "oldest") *)
-  Lemma spsc_eos_sound :
-    In REos (c_rets (cons s)) ->
-    stopped (shd s) = true \/
-    (closed (shd s) = true /\ head (shd s) = tail (shd s) /\ map snd (taken (shd s)) = pushed (shd s)).
-  Proof.
-    intros Hin. destruct (reach_inv_all _ _ _ nstop _ sched Hcfg) as (p & Hp & I & _ & J). fold s in Hp, I, J.
-    destruct J as [_ _ _ _ _ _ _ _ Jended _ _ _ Jeos _ _ _ _ _ _ _].
-    destruct (Jended (Jeos (or_introl Hin))) as [Hs|[Hc Hht]]; [left; assumption|right].
-    split; [assumption|]. split; [assumption|].
-    destruct I as [[Rc Rh0 Rht Rlen Rroom Rav Rp Rtk Rf Re Ru] _ _ _ _ _ _ _ _ _].
-    rewrite Rtk. apply firstn_all2. unfold lenZ in Rp.
-    assert (0 <= rd (rph_cp (cons s) p)) by (destruct (rph_cp (cons s) p); cbn; lia). lia.
-  Qed.
-
-  (* once source_closed is set the producer thread holds no handle and is outside every
-     operation: nothing is pushed afterwards *)
-  Lemma spsc_closed_is_final :
-    closed (shd s) = true -> exists p, prods s = [p] /\ p_handles p = 0 /\ p_quiet p = true.
-  Proof.
-    intros Hc. destruct (reach_inv_all _ _ _ nstop _ sched Hcfg) as (p & Hp & _ & _ & J). fold s in Hp, J.
-    destruct J as [_ _ _ Jclosed _ _ _ _ _ _ _ _ _ _ _ _ _ _ _ _]. destruct (Jclosed Hc). eauto.
-  Qed.
-
-  (* no lost wake-up: a consumer that is registered and not woken while the stream is closed /
-     stopped always has the notify_waiters() call of that close / stop still ahead of it *)
-  Lemma spsc_no_lost_wakeup :
-    c_pc (cons s) = CRvWaiting -> woken (shd s) = false ->
-    (closed (shd s) = true -> exists p, prods s = [p] /\ p_pc p = PDropNotify) /\
-    (stopped (shd s) = true -> s_pc (stp s) = SNotify).
-  Proof.
-    intros Hw Hk. destruct (reach_inv_all _ _ _ nstop _ sched Hcfg) as (p & Hp & _ & _ & J). fold s in Hp, J.
-    destruct J as [_ _ _ _ _ _ _ _ _ _ _ _ _ _ _ _ _ Wstop' _ Wclose'].
-    unfold c_is_waiting, s_notifying, p_notifying in *. rewrite Hw in *. split.
-    - intros Hc. exists p. split; [assumption|]. specialize (Wclose' eq_refl Hk Hc). destruct (p_pc p); try discriminate. reflexivity.
-    - intros Hs. specialize (Wstop' eq_refl Hk Hs). destruct (s_pc (stp s)); try discriminate. reflexivity.
-  Qed.
-
-  (* after close, with the producer thread finished and no stop() in flight, the consumer is never
-     blocked: not on the pop_lock, not in notified().await *)
-  Lemma spsc_consumer_enabled_after_close p :
-    closed (shd s) = true -> prods s = [p] -> p_pc p = PIdle ->
-    (c_pc (cons s) <> CIdle \/ c_prog (cons s) <> []) ->
-    step s 0 <> None.
-  Proof.
-    intros Hc Hp Hpi Hbusy.
-    destruct (reach_inv_all _ _ _ nstop _ sched Hcfg) as (p' & Hp' & I & _ & J). fold s in Hp', I, J.
-    rewrite Hp in Hp'. inv_step Hp'.
-    destruct I as [_ Ilock _ _ _ _ _ _ _ _].
-    destruct J as [_ _ _ _ _ _ _ _ _ _ _ _ _ _ _ _ _ _ _ Wclose'].
-    unfold step. unfold cstep. unfold c_locked, p_locked, c_is_waiting, p_notifying in *. rewrite Hpi in *.
-    destruct (c_pc (cons s)) as [|m| | | | |m| | | | | | | | | |] eqn:Hpc; try destruct m;
-      repeat match goal with
-      | |- context [match c_prog ?c with _ => _ end] => destruct (c_prog c) as [|[] ?]
-      | |- context [let '(_, _) := ?r in _] => destruct r
-      | |- context [if ?b then _ else _] => destruct b eqn:?
-      end; try discriminate.
-    all: rewrite ?Hpc in *; cbn in *.
-    - destruct Hbusy; congruence.
-    - specialize (Wclose' eq_refl eq_refl Hc). discriminate.
-  Qed.
-End OneProducerClose.
-
-(* ---- after close every consumer operation terminates: a measure that every consumer step lowers *)
-Definition c_dist (c : cth) : nat :=
-  match c_pc c with
-  | CIdle => 0
-  | CPopRaw PoLoadHead => 4 | CPopRaw PoLoadTail => 3 | CPopRaw PoRead => 2 | CPopRaw PoStoreHead => 1
-  | CRvCreate => 12 | CRvEnded => 11 | CRvLock => 10 | CRvClosed1 => 9
-  | CRvPop PoLoadHead => if c_cl c then 8 else 20
-  | CRvPop PoLoadTail => if c_cl c then 7 else 19
-  | CRvPop PoRead => 3 | CRvPop PoStoreHead => 2 | CRvUnlockRet => 1
-  | CRvStoreEnded1 => 2 | CRvUnlockEos => 1
-  | CRvUnlockWait => 18 | CRvAwait => 17 | CRvWaiting => 16
-  | CRvClosed2 => 15 | CRvEmptyH => 14 | CRvEmptyT => 13 | CRvStoreEnded2 => 1
-  end%nat.
-
-Lemma cstep_dist h c h' c' :
-  closed h = true -> cstep h c = Some (h', c') -> c_pc c <> CIdle ->
-  (c_dist c' < c_dist c)%nat /\ closed h' = true.
-Proof.
-  intros Hc H Hn. unfold cstep in H. unfold c_dist.
-  destruct c as [prog pc rt rh rp snap cl rets]. cbn [c_pc c_prog c_rh c_rp c_snap c_cl] in *.
-  destruct pc as [|m| | | | |m| | | | | | | | | |]; try destruct m; try congruence;
-  repeat match type of H with
-       | context [if ?b then _ else _] => destruct b eqn:?
-       | context [let '(_, _) := ?x in _] => destruct x eqn:?
-       end; try discriminate H; inv_step H; cbn; autorewrite with shf; try (split; [lia|assumption]).
-  all: try match goal with E : ring_read ?h ?w ?x = (_, _) |- _ =>
-         pose proof (rr_closed h w x) as E1; rewrite E in E1; cbn in E1; split; [lia|congruence] end.
-  all: try congruence.
-  all: try rewrite Hc.
-  all: try destruct cl; split; try lia; try assumption; try reflexivity.
-Qed.
-
-Section OneProducerTermination.
-  Variables (capacity w : Z) (cprog : list cop) (nstop : nat) (pprog : list pop_).
-  Hypothesis Hcfg : cfg_ok capacity w cprog pprog.
-
-  Lemma run_app s a b : run s (a ++ b) = run (run s a) b.
-  Proof. revert s. induction a as [|t a IH]; intros s; cbn; [reflexivity|apply IH]. Qed.
-
-  (* liveness after close: once source_closed is set, the producer thread is done and no stop() is
-     in flight, a consumer that runs completes its current recv()/pop() within 20 of its own steps
-     (it cannot be blocked and cannot spin) *)
-  Lemma spsc_recv_terminates_after_close : forall n sched p,
-    let s := run (init capacity w cprog nstop [pprog]) sched in
-    closed (shd s) = true -> prods s = [p] -> p_pc p = PIdle ->
-    (c_dist (cons s) <= n)%nat ->
-    exists k, (k <= n)%nat /\ c_pc (cons (run s (repeat 0%nat k))) = CIdle.
-  Proof.
-    induction n as [|n IH]; intros sched p s Hc Hp Hpi Hd.
-    - exists 0%nat. split; [lia|]. cbn. unfold c_dist in Hd. destruct (c_pc (cons s)) as [|m| | | | |m| | | | | | | | | |]; try destruct m; try destruct (c_cl (cons s)); try lia; reflexivity.
-    - destruct (c_pc (cons s)) eqn:Hpc; try (exists 0%nat; split; [lia|exact Hpc]).
-      all: assert (Hne : c_pc (cons s) <> CIdle) by congruence.
-      all: pose proof (spsc_consumer_enabled_after_close capacity w cprog nstop pprog sched Hcfg p Hc Hp Hpi (or_introl Hne)) as Hen.
-      all: fold s in Hen; unfold step in Hen; destruct (cstep (shd s) (cons s)) as [[h1 c1]|] eqn:Hcs; [|congruence]; clear Hen.
-      all: assert (Hrun : mkSt h1 c1 (stp s) (prods s) = run (init capacity w cprog nstop [pprog]) (sched ++ [0%nat]))
-             by (rewrite run_app; cbn; unfold step', step; fold s; rewrite Hcs; reflexivity).
-      all: destruct (cstep_dist _ _ _ _ Hc Hcs Hne) as [Hlt Hc1].
-      all: destruct (IH (sched ++ [0%nat]) p) as (k & Hk & Hidle);
-           [rewrite <- Hrun; exact Hc1 | rewrite <- Hrun; exact Hp | exact Hpi | rewrite <- Hrun; cbn; lia |].
-      all: exists (S k); split; [lia|]; cbn [repeat run]; unfold step' at 1, step at 1; rewrite Hcs; rewrite <- Hrun in Hidle; exact Hidle.
-  Qed.
-End OneProducerTermination.
-
-Lemma c_dist_le_20 c : (c_dist c <= 20)%nat.
-Proof. unfold c_dist. destruct (c_pc c) as [|m| | | | |m| | | | | | | | | |]; try destruct m; try destruct (c_cl c); lia. Qed.
-
-Lemma spsc_recv_terminates_after_close_20 capacity w cprog nstop pprog sched p :
-  cfg_ok capacity w cprog pprog ->
-  let s := run (init capacity w cprog nstop [pprog]) sched in
-  closed (shd s) = true -> prods s = [p] -> p_pc p = PIdle ->
-  exists k, (k <= 20)%nat /\ c_pc (cons (run s (repeat 0%nat k))) = CIdle.
-Proof. intros Hcfg s Hc Hp Hpi. eapply spsc_recv_terminates_after_close; eauto. apply c_dist_le_20. Qed.
-
-(* the premises are satisfiable and the pieces fit: three samples, close, four recv() *)
-Example drain_then_eos :
-  let s := run_ops (init 2 (2 ^ 64) [ORecv; ORecv; ORecv; ORecv] 0 [[OTrySend 1; OTrySend 2; OTrySend 3; ODropSrc]])
-                   [2; 2; 2; 2; 0; 0; 0; 0]%nat in
-  c_rets (cons s) = [RRecv 1; RRecv 2; REos; REos] /\
-  map p_rets (prods s) = [[RTryOk; RTryOk; RWouldBlock]] /\ closed (shd s) = true /\ ub (shd s) = None.
-Proof. vm_compute. repeat split; reflexivity. Qed.
